@@ -1048,13 +1048,24 @@ class Combine(_Base):
             forced = {0: {}, 1: {'y0': x0}, 2: {'y1': x1, 'y0': x0},
                       3: {'y1': x0}}[it % 4]
             mk.model = dict(x0=x0, x1=x1, **forced)
+            if it % 6 == 4:
+                # distinct parameter values that differ by less than a
+                # typical float tolerance (the lookup must be exact)
+                mk.model = dict(x0=1e-9, x1=2e-9, y0=4e-9, y1=1e-9)
+            elif it % 6 == 5:
+                mk.model = dict(x0=2.4e9, x1=2.4e9 + 5e3, y0=2.4e9 + 5e3,
+                                y1=7.0)
             rep, exc = self._run(cfg, mk)
             bad = [self.key_for(cfg, nm) for nm in rep.failed]
             if exc is not None:
                 bad.append(_exc_key(exc, self.exc_cls(cfg)))
-            if [k for k in bad if k not in known]:
-                raise AssertionError('differential run fails: %r %r' %
-                                     (bad[:4], rep.detail))
+            new = [k for k in bad if k not in known]
+            if new:
+                from pysym.runner import ConcreteViolation
+                raise ConcreteViolation(
+                    new[0] + ':concrete-probe',
+                    dict(parameter_values=mk.model, failed=bad[:6],
+                         detail=str(rep.detail)[:600]))
             if not bad:
                 n += 1
         return n
